@@ -49,11 +49,17 @@ VBreaking(ev) ==
 (* C06: the model program is unchanged, only neutral rendering choices differ *)
 VNeutral(ev) == IF ~Terminated(ev) THEN "bad:crash" ELSE IF ev.exit = 0 /\ ev.outlen = 0 THEN "ok" ELSE "bad:neutral-edit-reported"
 
+(* C43: same sources, same compiler and code generation, different debug-info configuration *)
+VDebugFormat(ev) == IF Terminated(ev) /\ ev.exit = 0 /\ ev.outlen = 0 THEN "ok"
+                    ELSE IF KF_C43_type_units(ev) THEN "kf:C43-gcc-type-units"
+                    ELSE IF ~Terminated(ev) THEN "bad:crash" ELSE "bad:debug-format-changes-the-verdict"
+
 (* C07: only harmless catalogue entries: silent by default, listed with --harmless *)
 VHarmless(ev) ==
   IF ~Terminated(ev) THEN "bad:crash"
   ELSE IF ev.exit # 0 THEN "bad:harmless-change-not-filtered"
-  ELSE IF ~Bit(ev.hexit, 4) \/ ToSet(ev.affected) \cap ToSet(ev.hnamed) = {} THEN "bad:harmless-change-not-shown-with--harmless"
+  ELSE IF ~Bit(ev.hexit, 4) \/ ToSet(ev.affected) \cap ToSet(ev.hnamed) = {}
+       THEN (IF KF_C07_method(ev) THEN "kf:C07-nonvirtual-member-function-not-listed" ELSE "bad:harmless-change-not-shown-with--harmless")
   ELSE "ok"
 
 (* C12 / C13 / C43 and friends: two runs that must agree *)
@@ -90,6 +96,7 @@ VSummary(ev) ==
 Verdict(ev) ==
   CASE ev.e = "SelfDiff" -> VSelfDiff(ev)
     [] ev.e = "Leaf" -> VLeaf(ev)
+    [] ev.e = "DebugFormat" -> VDebugFormat(ev)
     [] ev.e = "Summary" -> VSummary(ev)
     [] ev.e = "XmlEquiv" -> VXmlEquiv(ev)
     [] ev.e = "Fixpoint" -> VFixpoint(ev)
